@@ -596,11 +596,13 @@ pub fn poll_schedule_run<F: Fam>(out: &mut Out, rng: &mut Rng, run: u64, bytes: 
         d
     };
     let (obs, _pos) = poll_run::<F>(&stream, script, dflt, &mut dropf, &mut st, 0);
+    let nreads = obs.events.iter().filter(|e| e["ev"] == "Read").count();
     for mut e in obs.events {
         e["run"] = J::from(run);
         out.ev(e);
     }
-    out.ev(json!({"ev": "RunEnd", "run": run, "polls": obs.polls, "pendings": obs.pendings, "drops": ndrops}));
+    out.ev(json!({"ev": "RunEnd", "run": run, "polls": obs.polls, "pendings": obs.pendings, "drops": ndrops,
+                          "reads": nreads}));
     out.hold = false;
 }
 
@@ -653,11 +655,13 @@ fn exhaustive_schedules<F: Fam>(out: &mut Out, run: &mut u64, bytes: &[u8]) {
                 mode == 2
             };
             let (obs, _) = poll_run::<F>(&stream, script, dflt, &mut dropf, &mut st, 0);
+            let nreads = obs.events.iter().filter(|e| e["ev"] == "Read").count();
             for mut e in obs.events {
                 e["run"] = J::from(*run);
                 out.ev(e);
             }
-            out.ev(json!({"ev": "RunEnd", "run": *run, "polls": obs.polls, "pendings": obs.pendings, "drops": ndrops}));
+            out.ev(json!({"ev": "RunEnd", "run": *run, "polls": obs.polls, "pendings": obs.pendings, "drops": ndrops,
+                          "reads": nreads}));
             out.hold = false;
         }
     }
@@ -982,18 +986,9 @@ fn fault_events<F: Fam>(out: &mut Out, rng: &mut Rng, p: &F::Packet) {
                     let pend_first = rng.chance(1, 3);
                     for front in ["async", "poll"] {
                         let r = guarded(|| {
-                            let mut script = Vec::new();
-                            let mut left = k;
-                            while left > 0 {
-                                let c = chunk.min(left);
-                                script.push(RStep::Data(c));
-                                left -= c;
-                            }
-                            if pend_first {
-                                script.push(RStep::Pending); // the fault arrives after a not-ready answer
-                            }
-                            script.push(step);
-                            let mut rd = ScriptedReader::new(Arc::new(b.clone()), script, step);
+                            // the fault is bound to the byte position k, however many calls the decoder makes to get there
+                            let mut rd = ScriptedReader::new(Arc::new(b.clone()), vec![], RStep::Data(chunk));
+                            rd.fault_at = Some((k, step, if pend_first { 1 } else { 0 }));
                             rd.logging = false;
                             if front == "async" {
                                 drive(F::decode_async(&mut rd), MAX_POLLS).0.map(|r| r.map(|_| ()))
